@@ -1,8 +1,9 @@
 (* Extraction of the C05 RaIR validator (ExtrOcamlBasic only; numbers stay Coq's nat/positive/N/Z datatypes). *)
 From Coq Require Extraction ExtrOcamlBasic.
-From Verif Require Import RegAlloc.RaIRModel RegAlloc.RwRuleModel.
+From Verif Require Import RegAlloc.RaIRModel RegAlloc.RwRuleModel RegAlloc.RwRuleProofs.
 From VerifGen Require Import C05IdiomTags.
 Extraction Blacklist List String Int.
 Extraction "rair.ml" RaIRModel.validate_full RaIRModel.validate RaIRModel.infer RaIRModel.check RaIRModel.first_bad RaIRModel.check_pc
-  RaIRModel.check_progress RaIRModel.infer_ranks RaIRModel.srun RaIRModel.trun
-  RwRuleModel.classify RwRuleModel.idiom_of RaIRModel.consec_ok RaIRModel.lists_ok RaIRModel.check_uses RaIRModel.defs_eqs RwRuleModel.alu_of_id C05IdiomTags.idiom_tags.
+  RaIRModel.check_progress RaIRModel.infer_ranks RaIRModel.srun RaIRModel.trun RaIRModel.sa_step RaIRModel.id_mem
+  RwRuleModel.classify RwRuleModel.idiom_of RaIRModel.consec_ok RaIRModel.lists_ok RaIRModel.check_uses RaIRModel.defs_eqs RwRuleModel.alu_of_id C05IdiomTags.idiom_tags
+  RwRuleProofs.alu_sem RwRuleProofs.alu_defined.
